@@ -1,0 +1,13 @@
+//go:build verif
+
+package serviceregistry
+
+/*@
+// scheme://address:port of an instance (fmt.Sprintf): a function of the instance
+ufunc instURL(i int) string
+func (s *ServiceInstanceSpec) URL() (u string)
+  trusted
+  pure
+  requires s != nil
+  ensures u == instURL(ref(s))
+@*/
